@@ -191,7 +191,13 @@ def D6(m, R):
         rc = rv[2]
         if rv[3] == 1:
             # counted upwards: the end index must be its negation, taken only when positive
-            neg = [n for n in f.walk() if isinstance(n, ast.Assign) and norm(n.value) == '-%s' % rc and isinstance(n.targets[0], ast.Name)]
+            same = {rc}
+            for _ in range(3):
+                for n in f.walk():
+                    if isinstance(n, ast.Assign) and isinstance(n.targets[0], ast.Name) and isinstance(n.value, ast.Name) and n.value.id in same:
+                        same.add(n.targets[0].id)
+            neg = [n for n in f.walk() if isinstance(n, ast.Assign) and isinstance(n.targets[0], ast.Name) and isinstance(n.value, ast.UnaryOp) and
+                   isinstance(n.value.op, ast.USub) and norm(n.value.operand) in same]
             rc = neg[0].targets[0].id if neg else None
         if rc is None:
             R.undecided(f, last, 'how the right count becomes the end index is not recognised', construct='_strip clip')
